@@ -724,6 +724,9 @@ func (rn *Runner) Run() {
 		}
 	}
 	scfg.Implicit = cfg.Policy == "implicit"
+	if cfg.Redial { // the first dial of a redial scenario is fault-free: the script applies from the second connection on
+		scfg.FaultsFromConn = 2
+	}
 	if cfg.Variant == "latereply" && rn.stall { // the silent server answers after all - one and a half timeouts later
 		scfg.LateReply = StallTimeout * 3 / 2 // after the client gave up, before a renewed timeout would expire
 	}
@@ -761,7 +764,7 @@ func (rn *Runner) Run() {
 		}
 		cl, sv := pipeconn.Pipe()
 		rn.srv.Go(sv)
-		t := refsmtp.NewTrackConn(cl, r)
+		t := refsmtp.NewTrackConnID(cl, r, len(rn.tracks)+1)
 		t.WFail, t.Addr = wfail, addr
 		rn.tracks = append(rn.tracks, t)
 		return t, nil
@@ -896,6 +899,11 @@ func (rn *Runner) Run() {
 		}
 		c.SetTLSPolicy(policy)
 		r.Emit("setpolicy", "policy", cfg.Policy)
+		if cfg.Variant == "gone" { // the server drops the idle first connection before the Client dials again
+			rn.srv.Kill()
+			time.Sleep(5 * time.Millisecond)
+			r.Emit("gone")
+		}
 	}
 	switch cfg.Op {
 	case "RawAuth": // the smtp package used directly: NewClient, Auth with its lazy EHLO, Quit
@@ -1001,16 +1009,24 @@ func (rn *Runner) Run() {
 		var serr error
 		el := rn.timed(func() { serr = c.DialAndSendWithContext(opctx, msgs...) })
 		sendRet("DialAndSend", serr, el)
-	case "Reset":
+	case "Reset", "Reset2":
 		r.Emit("call", "op", "Dial")
 		var derr error
 		el := rn.timed(func() { derr = c.DialWithContext(opctx) })
 		r.Emit("ret", "op", "Dial", "err", derr != nil, "elapsed", el, "text", clip(derr))
 		if derr == nil {
-			r.Emit("call", "op", "Reset")
-			var rerr error
-			el = rn.timed(func() { rerr = c.Reset() })
-			r.Emit("ret", "op", "Reset", "err", rerr != nil, "elapsed", el, "text", clip(rerr))
+			for round := 1; round <= 2; round++ {
+				if round == 2 && cfg.Op != "Reset2" {
+					break
+				}
+				r.Emit("call", "op", "Reset")
+				var rerr error
+				el = rn.timed(func() { rerr = c.Reset() })
+				r.Emit("ret", "op", "Reset", "err", rerr != nil, "elapsed", el, "text", clip(rerr))
+				if el == "never" {
+					break
+				}
+			}
 			var cerr error
 			el = rn.timed(func() { cerr = c.Close() })
 			r.Emit("ret", "op", "Close", "err", cerr != nil, "elapsed", el, "text", clip(cerr))
